@@ -11,6 +11,13 @@ use std::borrow::Cow;
 #[derive(Debug, Clone, Copy)]
 pub struct FixLeb<'a, E: Endianity, const K: usize>(pub EndianSlice<'a, E>);
 
+/// two FixLeb readers are equal when they are the same view (same address and length)
+impl<'a, E: Endianity, const K: usize> PartialEq for FixLeb<'a, E, K> {
+    fn eq(&self, o: &Self) -> bool {
+        self.0.slice().as_ptr() == o.0.slice().as_ptr() && self.0.len() == o.0.len()
+    }
+}
+
 impl<'a, E: Endianity, const K: usize> FixLeb<'a, E, K> {
     pub fn new(buf: &'a [u8], e: E) -> Self {
         FixLeb(EndianSlice::new(buf, e))
